@@ -741,6 +741,37 @@ class Ovld:
         method = self.map[key]
         return method(*args)
 
+    def _call_next(self, code, slf, /, *args, **kwargs):
+        """call_next(*args, **kwargs) from the method whose code is given.
+
+        Call sites whose arguments are only known when the call is made
+        (*args, **kwargs) are rewritten to this: the key is worked out here
+        the way the rewriting works it out for an ordinary call site.
+        """
+        analysis = self.argument_analysis
+        args = list(args)
+        # A positional parameter given by keyword is keyed by its position
+        by_position = {}
+        for name in kwargs:
+            positions = [
+                pos
+                for pos in analysis.name_to_positions.get(name, ())
+                if isinstance(pos, int)
+            ]
+            if len(positions) == 1:
+                by_position[positions[0]] = name
+        while len(args) in by_position:
+            args.append(kwargs.pop(by_position[len(args)]))
+        key = (
+            code,
+            *[analysis.lookup_for(i)(arg) for i, arg in enumerate(args)],
+            *[
+                (name, analysis.lookup_for(name)(value))
+                for name, value in kwargs.items()
+            ],
+        )
+        return self.map[key](*slf, *args, **kwargs)
+
     def __repr__(self):
         return f"<Ovld {self.name or hex(id(self))}>"
 
